@@ -70,6 +70,7 @@ class SxSet:
         if not isinstance(x, SymReal):
             self._index[x] = len(self._items)
         self._items.append(x)
+        self._order_cache = None
 
     def __contains__(self, x):
         if isinstance(x, SymReal):
@@ -93,6 +94,7 @@ class SxSet:
         if x in self._index:
             del self._index[x]
             self._items = [m for m in self._items if not (m is x or m == x)]
+            self._order_cache = None
 
     def remove(self, x):
         if x not in self._index:
@@ -120,6 +122,10 @@ class SxSet:
     def _ordered(self):
         items = list(self._items)
         ctx = C.CUR
+        cached = getattr(self, "_order_cache", None)
+        if cached is not None and cached[0] == len(items) and cached[2] is ctx:
+            # a set's iteration order is stable while it is not modified
+            return [items[i] for i in cached[1]]
         if ctx is not None and ctx.opts.get("set_order") == "symbolic" and len(items) > 1:
             # explorer-chosen iteration order: rotations and reversals (every
             # pair of elements occurs in both orders); all permutations <= 3
@@ -130,6 +136,7 @@ class SxSet:
                 perms = [tuple((i + r) % n for i in range(n)) for r in range(n)]
                 perms += [tuple(reversed(p)) for p in perms]
             k = ctx.choose(len(perms))
+            self._order_cache = (len(items), perms[k], ctx)
             items = [items[i] for i in perms[k]]
         return items
 
